@@ -260,6 +260,8 @@ pub struct Repair<N: Network> {
     blockstore: SharedBlockstore,
     pool: SharedPool,
     slice_roots: BTreeMap<(BlockId, SliceIndex), SliceRoot>,
+    /// Proven index of the last slice of each block under repair.
+    last_slices: BTreeMap<BlockId, SliceIndex>,
     outstanding_requests: BTreeMap<Hash, RepairRequestType>,
     /// Expiry times of outstanding requests, earliest first (min-heap via [`Reverse`]).
     request_timeouts: BinaryHeap<Reverse<(Instant, Hash)>>,
@@ -288,6 +290,7 @@ where
             blockstore,
             pool,
             slice_roots: BTreeMap::new(),
+            last_slices: BTreeMap::new(),
             outstanding_requests: BTreeMap::new(),
             request_timeouts: BinaryHeap::new(),
             network,
@@ -396,6 +399,7 @@ where
                 self.outstanding_requests.remove(&request_hash);
 
                 // store slice Merkle root
+                self.last_slices.insert(block_id.clone(), last_slice);
                 self.slice_roots
                     .insert((block_id.clone(), last_slice), root);
 
@@ -455,6 +459,13 @@ where
                 // shred for the wrong slice root, don't even try to verify signature
                 if &shred.slice_root() != root {
                     warn!("repair response (Shred) with slice root not matching proved slice root");
+                    return;
+                }
+                // the leader may have signed this slice with either last-slice flag,
+                // only the one matching the proven last slice index belongs to this block
+                let expect_last = self.last_slices.get(block_id) == Some(&slice);
+                if shred.payload().header.is_last != expect_last {
+                    warn!("repair response (Shred) with last-slice flag not matching proven last slice");
                     return;
                 }
                 // have no commitment cache for repair, always verify signature (i.e. `None` here)
